@@ -58,9 +58,9 @@ func genC07(seed uint64, tier string) any {
 // c07Render builds the bytes of one input.  ctx carries what a connected peer can know.
 type c07Ctx struct {
 	self, victim, a, b string
-	victimEpoch      uint64
-	seq              *uint64
-	idn              *int
+	victimEpoch        uint64
+	seq                *uint64
+	idn                *int
 }
 
 func (c *c07Ctx) nextID() string {
